@@ -136,7 +136,18 @@ func checkC03(c *Ctx) {
 		for _, cs := range callers {
 			r.Func(fk(cs.Caller))
 			construct := fk(cs.Caller) + " -> " + fk(fn)
-			if !c.readsField(cs.Caller, c.field("server", "MsgClientPub", "Content")) && c.isCallLifecycleFunc(cs.Caller) {
+			lifecycle := c.isCallLifecycleFunc(cs.Caller)
+			if !lifecycle {
+				// an extracted "save the replacement message" helper: all of its callers are life-cycle functions
+				up := c.callersOf(cs.Caller)
+				lifecycle = len(up) > 0
+				for _, u := range up {
+					if !c.isCallLifecycleFunc(u.Caller) || c.readsField(u.Caller, c.field("server", "MsgClientPub", "Content")) {
+						lifecycle = false
+					}
+				}
+			}
+			if !c.readsField(cs.Caller, c.field("server", "MsgClientPub", "Content")) && lifecycle {
 				r.OK("C03.2-who-may-save", construct, c.pos(cs.Site), "call life-cycle function (touches Topic.currentCall, does not read client Pub.Content): server-authored replacement message")
 				continue
 			}
@@ -348,7 +359,7 @@ func (c *Ctx) checkC03Session() {
 		for _, s := range sendsB {
 			// the channel belongs to the value returned by getSub and the send is behind != nil
 			g := core.NilGuard("getSub(..)!=nil", core.IsCallTo(getSub), false)
-			ok, _ := core.GuardedByCorr(fn, s.Instr, g)
+			ok, _ := core.GuardedByCorr(fn, s.At, g)
 			_, base := core.LoadedField(core.Strip(s.Chan))
 			fromGet := base != nil && core.IsCallTo(getSub)(base)
 			r.Check(ok && fromGet, "C03.4-session-handoff", fk(fn)+": send on Subscription.broadcast", c.pos(s.Instr),
@@ -356,7 +367,7 @@ func (c *Ctx) checkC03Session() {
 		}
 		for _, s := range sendsR {
 			g := core.EqGuard("RcptTo==\"sys\"", core.IsFieldLoad(rcpt), core.IsConstString("sys"), true)
-			ok, _ := core.GuardedByCorr(fn, s.Instr, g)
+			ok, _ := core.GuardedByCorr(fn, s.At, g)
 			r.Check(ok, "C03.4-session-handoff", fk(fn)+": send on Hub.routeCli", c.pos(s.Instr),
 				"unattached publish is routed to the hub only for RcptTo==\"sys\"", "an unattached {pub} is routed through the hub for topics other than sys")
 		}
